@@ -1394,7 +1394,14 @@ func (pc *Context) ParseArguments(osenv *rsyncos.Env, args []string) error {
 			return nil
 
 		case OPT_FILTER:
-			opts.filterRules = append(opts.filterRules, pc.poptGetOptArg())
+			rule := pc.poptGetOptArg()
+			// Only the rule prefixes which the filter rule parser knows:
+			// anything else ("exclude name", "-! name", a bare name)
+			// would be taken for a literal exclude pattern.
+			if rule != "" && !strings.HasPrefix(rule, "- ") && !strings.HasPrefix(rule, "+ ") && !strings.HasPrefix(rule, "!") {
+				return fmt.Errorf("--filter=%q: only \"- name\" and \"+ name\" filter rules are implemented", rule)
+			}
+			opts.filterRules = append(opts.filterRules, rule)
 		case OPT_EXCLUDE:
 			opts.filterRules = append(opts.filterRules, "- "+pc.poptGetOptArg())
 		case OPT_INCLUDE:
